@@ -354,11 +354,19 @@ theorem verify_shape (hc : Corr.castVerify cx = some c) (sh : Shape σ cx (satDi
 
 theorem nonZero_shape (hc : Corr.castNonZero cx = some c) (sh : Shape σ cx (satDissat cfg x)) :
     Shape σ c (satDissat cfg (.nonZero x)) := by
-  have hi : c.input = cx.input := by
+  have hi : c.input = cx.input ∧ (cx.input = .oneNonZero ∨ cx.input = .anyNonZero) := by
     unfold Corr.castNonZero at hc; split at hc <;> try (simp at hc; done)
-    split at hc <;> simp at hc; subst hc; rfl
+    rename_i hin
+    split at hc <;> simp at hc; subst hc
+    refine ⟨rfl, ?_⟩
+    cases h : cx.input <;> simp_all
   simp only [satDissat]
-  exact sh.sat_only.congr hi
+  refine ⟨fun hz => ?_, fun ho w hw => ?_, fun hn w hw => sh.nonzero (hi.1 ▸ hn) w hw⟩
+  · rw [hi.1] at hz; rcases hi.2 with h | h <;> rw [h] at hz <;> cases hz
+  · rcases hw with hw | hw
+    · exact sh.one (hi.1 ▸ ho) w (.inl hw)
+    · simp only [Sat.push0, Wit.stack.injEq] at hw
+      subst hw; rfl
 
 theorem dupIf_shape (hag : Agrees env cfg.env cfg.assets σ) (hc : Corr.castDupIf cx = some c)
     (sh : Shape σ cx (satDissat cfg x)) : Shape σ c (satDissat cfg (.dupIf x)) := by
